@@ -28,6 +28,7 @@ CONSTANTS
   WPropose = 40
   WCommit = 40
   WApp = 0
+  LateBias = 3
   WStore = 15
 INVARIANT EmitAtDepth
 CHECK_DEADLOCK FALSE
